@@ -19,6 +19,19 @@ objs=[f*g*dx(degree=1) + f*f*f*dx(degree=5) + g*dx(degree=2)]'''),
     _c("c11_vertex_and_default_tri", '''
 m=mesh("triangle"); V=space(m,"P",2); v=TestFunction(V); f=Coefficient(V)
 objs=[f*v*dx(scheme="vertex", degree=1) + f*f*v*dx(degree=4)]'''),
+    # two rules of one integral with the same number of points and the same weights but different points
+    # (vertex scheme next to the default rule of degree 2 / 3; a custom rule with the default rule's weights)
+    _c("c11_same_weights_other_points_tri", '''
+m=mesh("triangle"); V=space(m,"P",2); v=TestFunction(V); f=Coefficient(V)
+objs=[f*v*dx(scheme="vertex", degree=1) + f*f*v*dx(degree=2), f*f*v*dx(degree=2) + f*v*dx(scheme="vertex", degree=1) + v*dx(degree=0)]'''),
+    _c("c11_same_weights_other_points_quad_tet", '''
+m=mesh("quadrilateral"); V=space(m,"Q",2); v=TestFunction(V); f=Coefficient(V)
+mt=mesh("tetrahedron"); Vt=space(mt,"P",2); vt=TestFunction(Vt); ft=Coefficient(Vt)
+objs=[f*v*dx(scheme="vertex", degree=1) + f*f*v*dx(degree=3), ft*vt*dx(scheme="vertex", degree=1) + ft*ft*vt*dx(degree=2),
+      ft*vt*ds(scheme="vertex", degree=1) + ft*ft*vt*ds(degree=2)]'''),
+    _c("c11_custom_points_default_weights_tri", '''
+m=mesh("triangle"); V=space(m,"P",2); v=TestFunction(V); f=Coefficient(V)
+objs=[f*f*v*dx(degree=2) + f*v*dx(metadata={"quadrature_rule":"custom","quadrature_points":np.array([[0.25,0.25],[0.5,0.25],[0.25,0.5]]),"quadrature_weights":np.array([1.0/6,1.0/6,1.0/6])})]'''),
     _c("c11_gll_and_default_interval", '''
 m=mesh("interval"); V=space(m,"P",3); v=TestFunction(V); f=Coefficient(V)
 objs=[f*v*dx(scheme="GLL", degree=3) + f*f*v*dx(degree=1) + f*v*dx(degree=6)]'''),
